@@ -6,6 +6,7 @@
 set -u
 export GOFLAGS=-mod=mod GOPROXY=off GOSUMDB=off GOTOOLCHAIN=local
 P="$1"; M="$2"; shift 2
+PROP="${P%r2}"   # round-2 seeds live in <prop>r2 directories
 SRC=/tmp/seed/out/$P
 DST=/verif/seeded/$P-$M
 W=/tmp/seedverify-$P-$M
@@ -49,7 +50,7 @@ if [ "$confirmed" = yes ]; then
   else
     git -C /repo apply "$DST/patch.diff" || { echo "cannot apply to /repo"; exit 2; }
   fi
-  for C in "$P" "$@"; do
+  for C in "$PROP" "$@"; do
     out=$(cd /verif && timeout 1500 bin/check $C --no-evidence 2>&1 | grep -E "^(VIOLATION|INCONCLUSIVE|OK|KNOWN)" | head -4)
     rc=$(echo "$out" | grep -c '^VIOLATION')
     echo "=== check $C:"; echo "$out" | cut -c1-300
@@ -66,7 +67,7 @@ python3 - "$DST" "$P" "$M" "$confirmed" "$results" "$place" "$runcmd" <<'PY'
 import json,sys,os
 dst,p,m,conf,res,place,run=sys.argv[1:8]
 desc=open(os.path.join(dst,'description.md')).read() if os.path.exists(os.path.join(dst,'description.md')) else ''
-meta={'property':p,'mutation':m,'confirmed_by_me':conf=='yes','what_i_ran':'tools/seedcheck.sh: scratch worktree of /repo HEAD; existing suites of ., v2 (and cmd if touched) with the patch; demo test with and without the patch; then patch applied to /repo, bin/check run, patch undone','demo_place':place,'demo_run':run,'check_results':res.split(),'needs_to_manifest':desc}
+meta={'property':p[:3],'mutation':m,'confirmed_by_me':conf=='yes','what_i_ran':'tools/seedcheck.sh: scratch worktree of /repo HEAD; existing suites of ., v2 (and cmd if touched) with the patch; demo test with and without the patch; then patch applied to /repo, bin/check run, patch undone','demo_place':place,'demo_run':run,'check_results':res.split(),'needs_to_manifest':desc}
 json.dump(meta,open(os.path.join(dst,'meta.json'),'w'),indent=1)
 print('meta:',meta['check_results'])
 PY
